@@ -75,12 +75,23 @@ CASES = [
         ("                if prob == prev_prob:\n                    grammar_section[-1]['values'].append(value)\n",
          "                if (prob == prev_prob):\n                    grammar_section[-1]['values'].append(\n                        value)\n"),
         ("            debug_count = 0\n            error_flag = False\n", "            error_flag = False\n            debug_count = 0\n")]),
+    dict(name="H05_parameters_renamed", checks=["C07", "C14"], file=G, edits="RENAME", renames=[
+        ("skip_brute", "no_markov"), ("grammar_section", "section"), ("base_structures", "bases"),
+        ("base_structure_folder", "folder")]),
     dict(name="H04_scorer_renamed_and_comments", checks=["C07"], file=S, edits=[
         ("            # Read though all the lines in the fil\n            for value in file:\n", "            for row in file:\n"),
         ("                    value.encode(encoding)\n", "                    row.encode(encoding)\n"),
         ("                split_values = value.rstrip().split(\"\\t\")\n                grammar_counter[split_values[0]] = float(split_values[1])\n",
          "                cells = row.rstrip().split(\"\\t\")\n                grammar_counter[cells[0]] = float(cells[1])\n")]),
 ]
+
+# behaviour-preserving refactorings written by independent sub-agents (differentially tested
+# equivalent): /verif/seeded/harmless/<id>/patch.diff.  They touch other files too (pcfg_grammar.py,
+# the trainer): an alarm of a check that comes from another translator's tie is noted as such.
+for _id, _checks in (("H1-1", ["C04", "C07"]), ("H0-1", ["C04", "C07", "C14"]), ("H2-4", ["C14", "C07", "C04"]),
+                     ("H4-2", ["C14", "C07", "C04"]), ("H4-1", ["C07"])):
+    CASES.append(dict(name="S_%s_seeded_harmless" % _id.replace("-", "_"), checks=_checks, file=None,
+                      patch="/verif/seeded/harmless/%s/patch.diff" % _id))
 
 RENAMES_G = [  # whole-word renames inside lib_guesser/grammar_io.py (locals of the translated functions only)
     ("prev_prob", "last_prob"), ("split_values", "fields"), ("debug_count", "line_no"), ("error_flag", "skip_next"),
@@ -93,13 +104,21 @@ def sh(cmd, **kw):
 
 
 def patch(case, w):
+    if case.get("patch"):
+        r = sh("git -C %s apply --whitespace=nowarn %s" % (w, case["patch"]))
+        if r.returncode != 0:
+            raise SystemExit("%s: %s" % (case["name"], r.stderr))
+        d = sh("git -C %s diff --ignore-cr-at-eol -- lib_guesser/grammar_io.py lib_scorer/grammar_io.py" % w).stdout
+        with open(os.path.join(HERE, case["name"] + ".diff"), "w") as f:
+            f.write("# the part of %s that touches the translated loaders\n" % case["patch"] + d)
+        return
     path = os.path.join(w, case["file"])
     with open(path, encoding="utf-8", newline="") as f:
         src = f.read()
     crlf = "\r\n" in src
     txt = src.replace("\r\n", "\n")
     if case["edits"] == "RENAME":
-        for old, new in RENAMES_G:
+        for old, new in case.get("renames", RENAMES_G):
             if not re.search(r"\b%s\b" % old, txt):
                 raise SystemExit("%s: %s not found" % (case["name"], old))
             txt = re.sub(r"\b%s\b" % old, new, txt)
